@@ -39,6 +39,10 @@ import (
 type c10K struct {
 	Case   c10Case `json:"case"`
 	CondKs []int   `json:"cond_ks"` // nil = no chain condition, else Where("k_ IN ?", CondKs)
+	// Diag (upsert paths, composite keys): row k carries the k-th value in EVERY key member and every member column is
+	// UNIQUE by itself as well — a conflict target made of a SUBSET of the key then resolves (instead of failing) and
+	// overwrites a row whose full key differs
+	Diag bool `json:"diag,omitempty"`
 }
 
 var c10KPaths = []string{"update1", "updcol1", "upd_map", "updcols_map", "upd_struct", "upd_dto", "updcols_struct", "upd_self", "upd_self",
@@ -53,7 +57,7 @@ type c10KTable struct {
 }
 
 // c10KInfos: c10Infos with column names / key flags taken from the REAL parsed schema (naming is not C10's business)
-func c10KInfos(db *gorm.DB, s c10Sch, sch *schema.Schema) *c10KTable {
+func c10KInfos(db *gorm.DB, s c10Sch, sch *schema.Schema, diag bool) *c10KTable {
 	t := &c10KTable{infos: c10Infos(db, s), keys: map[int][]interface{}{}}
 	for i := range t.infos {
 		t.infos[i].Col = sch.Fields[i].DBName
@@ -75,6 +79,17 @@ func c10KInfos(db *gorm.DB, s c10Sch, sch *schema.Schema) *c10KTable {
 			t.keys[k] = []interface{}{c10KeyVal(s.Fields[t.pk[0]].Kind, k)}
 		}
 	default:
+		if diag {
+			t.n = 4
+			for k := 1; k <= 4; k++ {
+				vals := make([]interface{}, m)
+				for j := 0; j < m; j++ {
+					vals[j] = c10KeyVal(s.Fields[t.pk[j]].Kind, k)
+				}
+				t.keys[k] = vals
+			}
+			break
+		}
 		t.n = 1 << m
 		for k := 1; k <= t.n; k++ {
 			vals := make([]interface{}, m)
@@ -87,13 +102,13 @@ func c10KInfos(db *gorm.DB, s c10Sch, sch *schema.Schema) *c10KTable {
 	return t
 }
 
-func c10KSetup(s c10Sch) (*gorm.DB, *sql.DB, *c10KTable, *Recorder) {
+func c10KSetup(s c10Sch, diag bool) (*gorm.DB, *sql.DB, *c10KTable, *Recorder) {
 	db, rec, sqlDB := OpenRec(&gorm.Config{NowFunc: fixedNowFunc})
 	sch, _, err := c10Parse(db, s)
 	if err != nil {
 		panic(err)
 	}
-	t := c10KInfos(db, s, sch)
+	t := c10KInfos(db, s, sch, diag)
 	defs, pkcols := []string{}, []string{}
 	for _, i := range t.cols {
 		in := t.infos[i]
@@ -103,6 +118,9 @@ func c10KSetup(s c10Sch) (*gorm.DB, *sql.DB, *c10KTable, *Recorder) {
 			typ = "text"
 		case "time":
 			typ = "datetime"
+		}
+		if in.PK && diag && len(t.pk) > 1 {
+			typ += " UNIQUE"
 		}
 		defs = append(defs, strings.TrimSpace("`"+in.Col+"` "+typ+" "+in.DefSQL))
 		if in.PK {
@@ -201,7 +219,7 @@ type c10KOut struct {
 
 func c10KJudge(e *c10K, r *Result) (out c10KOut) {
 	c := &e.Case
-	db, sqlDB, t, rec := c10KSetup(c.Schema)
+	db, sqlDB, t, rec := c10KSetup(c.Schema, e.Diag)
 	defer sqlDB.Close()
 	typ := c.Schema.Type()
 	before := c10DumpTable(sqlDB, "k_")
@@ -425,7 +443,7 @@ func genC10K(rng *rand.Rand, r *Result) *c10K {
 		if err != nil {
 			continue
 		}
-		t := c10KInfos(db, s, sch)
+		t := c10KInfos(db, s, sch, false)
 		if len(t.cols)-len(t.pk) < 1 {
 			continue
 		}
@@ -445,6 +463,10 @@ func genC10K(rng *rand.Rand, r *Result) *c10K {
 				upsert = false
 			}
 		}
+		if upsert && m > 1 && rng.Intn(2) == 0 {
+			e.Diag = true
+			t = c10KInfos(db, s, sch, true)
+		}
 		// a key value: per component an existing value, a value no row has (3 / 9), or zero
 		genKey := func(pZero int) c10Vals {
 			v := c10Vals{}
@@ -456,7 +478,7 @@ func genC10K(rng *rand.Rand, r *Result) *c10K {
 					v[f.Name] = c10KeyVal(f.Kind, 9)
 				default:
 					top := 2
-					if m == 1 {
+					if m == 1 || e.Diag {
 						top = 4
 					}
 					v[f.Name] = c10KeyVal(f.Kind, 1+rng.Intn(top))
@@ -568,6 +590,9 @@ func genC10K(rng *rand.Rand, r *Result) *c10K {
 			r.H("c10.keys.shape", c10ShapeOf(sch))
 			r.H("c10.keys.path", c.Path)
 			r.H("c10.keys.embedded", fmt.Sprint(c10HasEmbed(s)))
+			if upsert {
+				r.H("c10.keys.upsert-table", fmt.Sprintf("members-unique=%v", e.Diag))
+			}
 			keySrc := c.Model
 			if len(c.Rows) > 0 && (c.Path == "upd_self" || c.Path == "save" || strings.HasPrefix(c.Path, "delete")) {
 				keySrc = c.Rows[0]
@@ -592,7 +617,7 @@ func c10KLean(e *c10K) ([][]interface{}, []int) {
 	if err != nil {
 		return nil, nil
 	}
-	t := c10KInfos(db, c.Schema, sch)
+	t := c10KInfos(db, c.Schema, sch, e.Diag)
 	exp := c10Export(sch)
 	rows := [][][]string{}
 	for k := 1; k <= t.n; k++ {
